@@ -336,7 +336,12 @@ class World:
             elif name == "sp_assign":
                 new = self.sp(op[2])
                 def f():
-                    job.statepoint = self.sp(op[2])
+                    given = self.sp(op[2])
+                    try:
+                        job.statepoint = given
+                    finally:
+                        given.clear()  # later use of the caller's own mapping must not matter
+                        given["a"] = "changed by the caller"
             else:
                 upd = {"b": 2} if op[2] == "b" else {"a": 5}
                 overwrite = op[3]
